@@ -61,7 +61,9 @@ def check(ctx):
         ctx.check(T.classify(mir.fn_name(rfr)) == "order-preserving-remove" and lib.tail(mir.fn_name(rfr), 1) == "remove", "C06.b",
                   "%s:removes-by-index-in-order" % fk, f.loc(rb), "Vec::remove(index)", "the entry is removed with %s" % mir.fn_name(rfr))
         Ls = [L for L in LP.find_loops(f) if L.driver is not None and rb in f.reach_from(L.some_t) and f.dominates(L.some_t, rb)]
-        if not ctx.check(len(Ls) == 1, "C06.b", "%s:removal-inside-search-loop" % fk, f.loc(rb), "", "the removal is not inside one search loop"):
+        if not Ls and position_idiom(ctx, prog, f, fk, rb, rt_, idp):
+            continue
+        if not ctx.check(len(Ls) == 1, "C06.b", "%s:removal-inside-search-loop" % fk, f.loc(rb), "", "the removal is not inside one search loop (nor the position()+remove idiom)"):
             continue
         L = Ls[0]
         # index = enumerate index of the current element
@@ -409,3 +411,46 @@ def entry_removal_guarded(ctx, prog, path_fns):
                           "the %s entry is deleted without its list having been found empty: the other registrations under that key are lost" % tfield)
     # no floor: a revoke path that never deletes entries cannot lose registrations this way (the rule is conditional)
     ctx.ok("C06.f", "entry-deletions-enumerated", "", "%d map-entry deletion site(s) on the revoke path, each guarded" % n)
+
+
+def position_idiom(ctx, prog, f, fk, rb, rt_, idp):
+    """second accepted idiom: `if let Some(i) = list.iter().position(|h| h.sys_command() == id) { list.remove(i); }`"""
+    os_ = origins(f, rt_["args"][1])
+    if not os_ or not all(o[0] == "call" for o in os_):
+        return False
+    pb = {o[1] for o in os_}
+    if len(pb) != 1:
+        return False
+    pb = pb.pop()
+    pt = f.blocks[pb]["term"]
+    pfr = op_fn(pt["func"])
+    if not pfr or T.classify(mir.fn_name(pfr)) != "first-match-search" or lib.tail(mir.fn_name(pfr), 1) != "position":
+        return False
+    arms = lib.result_arms(f, pb)
+    on_some = bool(arms) and f.dominates(arms[0][1], rb)
+    ctx.check(on_some, "C06.b", "%s:removes-at-found-position" % fk, f.loc(rb), "remove(i) on the Some(i) arm of a first-match position()", "remove is not on the found arm of position()")
+    # same list
+    src_it = LP.coll_source(f, pt["args"][0])
+    src_rm = LP.coll_source(f, rt_["args"][0])
+    root_rm = lib.access_path(f, rt_["args"][0])[:1]
+    root_it = lib.access_path(f, pt["args"][0])[:1]
+    ctx.check((src_it is not None and src_it == src_rm) or (root_rm == root_it and root_rm and root_rm[0][0] in ("phi", "arg", "call")), "C06.b",
+              "%s:removes-from-iterated-list" % fk, f.loc(rb), "removes from the list it searched", "removes from a different list than the one searched")
+    # predicate: element.sys_command() == reactor id (captured)
+    okp = False
+    for o in origins(f, pt["args"][1]):
+        if o[0] == "agg":
+            ag = f.blocks[o[1]]["stmts"][o[2]]["rv"]["agg"]
+            cb = prog.body(ag.get("closure")) if ag["kind"] == "closure" else None
+            if cb is None:
+                continue
+            caps_id = any(lib.originates_from_arg(f, c, idp) for c in ag["ops"])
+            for b, t, fr in cb.iter_calls():
+                if fr and lib.tail(mir.fn_name(fr), 1) == "eq" and t["dest"]["l"] == 0:
+                    both = origins(cb, t["args"][0]) | origins(cb, t["args"][1])
+                    has_el = any(o2[0] == "call" and lib.tail(mir.fn_name(op_fn(cb.blocks[o2[1]]["term"]["func"])), 2) == "ReactorHandle::sys_command" for o2 in both if o2[0] == "call")
+                    has_cap = any(o2[0] == "arg" and o2[1] == 1 for o2 in both)
+                    okp = has_el and has_cap and caps_id
+    ctx.check(okp, "C06.b", "%s:removes-only-matching-entry" % fk, f.loc(pb), "position predicate is element.sys_command() == reactor id",
+              "the position predicate does not compare element.sys_command() with the reactor id")
+    return True
